@@ -123,6 +123,10 @@ def wrap(
     if offset is None:
         offset = indent
 
+    # textwrap expands tabs; expand them up front so that the first line
+    # computed below has the same length as the text it is sliced from.
+    text = text.expandtabs()
+
     # Protocol buffers preserves single initial spaces after line breaks
     # when parsing comments (such as the space before the "w" in "when" here).
     # Re-wrapping causes these to be two spaces; correct for this.
